@@ -28,7 +28,8 @@ from engine import symex, codec, c02env
 from engine.codec import SWord
 from engine.c02env import FakeReader, FakeServer
 
-from aioslsk.network.connection import (DataConnection, PeerConnection, ServerConnection, ListeningConnection,
+from aioslsk.exceptions import ConnectionReadError
+from aioslsk.network.connection import (CloseReason, DataConnection, PeerConnection, ServerConnection, ListeningConnection,
                                         ConnectionState)
 
 RANK = {ConnectionState.UNINITIALIZED: 0, ConnectionState.CONNECTING: 1, ConnectionState.CONNECTED: 2,
@@ -400,6 +401,7 @@ class Observer:
         self.violations: list = []    # (label, tag, info)
         self.slow_listener = False    # the message listener suspends once (a manager awaiting something)
         self.slow_states = False      # the state listener suspends once
+        self.init_mode = 'instant'    # what the PeerInitializedEvent listener does for accepted connections
         self.on_message_hook = None
 
         async def on_state(ev):
@@ -414,8 +416,31 @@ class Observer:
             if self.slow_listener:
                 await asyncio.sleep(0)
 
-        def on_init(ev):
+        async def on_init(ev):
+            """PeerInitializedEvent listener (a manager): on_peer_accepted awaits it before accept() decides about CONNECTED"""
             self.inits.append(ev.connection)
+            mode = self.init_mode
+            if not ev.connection.incoming or mode == 'instant':
+                return
+            if mode == 'suspend1':
+                await asyncio.sleep(0)
+            elif mode == 'suspend3':
+                for _ in range(3):
+                    await asyncio.sleep(0)
+            elif mode == 'suspend_long':
+                await asyncio.sleep(2)            # idle moments pass: scripted remote events happen meanwhile
+            elif mode == 'disconnects':
+                await ev.connection.disconnect(CloseReason.REQUESTED)      # a manager rejecting the peer
+            elif mode == 'reads':
+                try:                              # what TransferManager._on_peer_initialized does for F connections
+                    await ev.connection.receive_transfer_ticket()
+                except ConnectionReadError:
+                    pass
+            else:
+                raise symex.HarnessError(mode)
+            if self.last(ev.connection) in (ConnectionState.CLOSING, ConnectionState.CLOSED) and symex._CTX is not None:
+                # the window of interest: the connection was (being) closed while on_peer_accepted was still awaiting this listener
+                symex._CTX.reach('closed_while_init_listener_pending')
         self._keep = (on_state, on_msg, on_init)
         bus.register(ConnectionStateChangedEvent, on_state)
         bus.register(MessageReceivedEvent, on_msg)
